@@ -236,6 +236,15 @@ def run(chk: Check, ctx: Any) -> None:
         # argument handler -> parse_position_marker_arg, tuple roles
         _tuple_roles(chk, ctx, want_h.handler, want_a.handler)
 
+    # the printed form of an (edited) mark must parse back: the name is escaped for the quote it is printed in
+    from .c04 import quoted_hole_rule
+    pstr = repo.func("explorerscript.ssb_converting.ssb_data_types:SsbOpParamPositionMarker.__str__")
+    pret = astq.single_return_expr(pstr.node)
+    if pret is not None:
+        quoted_hole_rule(chk, ctx, "C18-R3", pstr, pret)
+    else:
+        chk.unknown("C18-R3", "position-marker:__str__", pstr, "__str__ has no single return expression")
+
     # all construction sites of SourceMapPositionMark (sibling agreement)
     n_sites = 0
     for f in repo.all_funcs():
